@@ -2,3 +2,4 @@ INIT Init
 NEXT Next
 POSTCONDITION Accepted
 CHECK_DEADLOCK FALSE
+CONSTANT MulMod <- MulModTLC
